@@ -232,8 +232,41 @@ def report(chk, bad, plans, tagname, inits=()):
         chk.violate(sig, what, {"mode": "seq", "source": tagname, "plan": self_contained(plans[k], inits), "step": j, "event": ev, "reference": ref})
 
 
+_BINDIR = [None]
+
+
+def reconfirmed(chk, plan, what):
+    """A hang verdict ("the plan did not finish within 30 s") rests on the wall clock: the plan is re-run ALONE with a
+    limit >= 5x as large (10x on a busy machine); only 2 of 2 failures to return make it a violation."""
+    if what != "timedout" or _BINDIR[0] is None:
+        return True
+    busy = os.getloadavg()[0] > (os.cpu_count() or 1)
+    limit = 30 * 5 * (2 if busy else 1)
+    os.environ["VERIF_WATCHDOG_S"] = str(limit)
+    try:
+        for _ in range(2):
+            runs, inc = run_plans(chk, _BINDIR[0], [], [plan], "reconfirm", nproc=1, timeout=4 * limit)
+            if not inc:
+                bad = judge(chk, runs, "reconfirm", par=1)
+                report(chk, bad, [plan], "re-run of a watchdog trip")
+                note = chk.extra.setdefault("watchdog_trips_not_reproduced", {"count": 0, "cases": []})
+                note["count"] += 1
+                note["cases"] = (note["cases"] + [{"ops": [o["op"] for o in plan["ops"]], "limit_s": limit}])[:10]
+                return False
+    finally:
+        os.environ.pop("VERIF_WATCHDOG_S", None)
+    return True
+
+
 def report_incidents(chk, incidents, plans, tagname, inits=()):
+    confirmed_hang = False
     for k, what in incidents:
+        if what == "timedout":
+            if confirmed_hang:
+                continue            # one confirmed hang is enough for the verdict (each confirmation costs minutes)
+            if not reconfirmed(chk, self_contained(plans[k], inits), what):
+                continue
+            confirmed_hang = True
         ops = plans[k]["ops"]
         chk.violate({"op": ops[0]["op"] if len(ops) == 1 else "sequence", "expected": "returns", "got": what, "detail": what},
                     "driver process %s while running plan %s" % (what, json.dumps(plans[k])[:300]),
@@ -636,6 +669,8 @@ def run(tier):
     chk = core.Check("C14", tier, "model_checking")
     rng = random.Random(chk.seed)
     bindir = core.cargo_build(bins=["fsops"])
+    _BINDIR[0] = bindir
+    chk.extra["watchdog_trips_not_reproduced"] = {"count": 0, "cases": []}
     nontrivial = set()
 
     bigread = start_bigread(chk, bindir, tier)
